@@ -90,6 +90,8 @@ type Engine struct {
 	retMemo      map[*ssa.Function]*retOrigin
 	negMemo      map[*Term][]*Term
 	ctxReach     *Term
+	snaps        map[int]*State
+	snapCount    int
 }
 
 func NewEngine(P *Program) *Engine {
@@ -98,7 +100,7 @@ func NewEngine(P *Program) *Engine {
 		typeIDs: map[string]int{}, typeByID: map[int]types.Type{}, strLitText: map[string]string{},
 		assumption: map[string]bool{}, inlined: map[string]bool{}, usedCtr: map[string]bool{}, funcsSeen: map[string]bool{},
 		writeMemo: map[string]*writeSet{}, loopInfo: map[*ssa.Function]*loopInfo{}, globalRefs: map[string]*Term{}, maxDepth: 60,
-		closureByRef: map[*Term]*Closure{}, retMemo: map[*ssa.Function]*retOrigin{}, negMemo: map[*Term][]*Term{}, arithChecked: map[*ssa.Function]bool{}}
+		closureByRef: map[*Term]*Closure{}, retMemo: map[*ssa.Function]*retOrigin{}, negMemo: map[*Term][]*Term{}, snaps: map[int]*State{}, arithChecked: map[*ssa.Function]bool{}}
 	tb := E.tb
 	tb.DeclSort(SRef)
 	tb.DeclSort(SUnit)
@@ -594,6 +596,7 @@ func (E *Engine) globalRef(g *ssa.Global) *Term {
 	}
 	t := E.tb.Const(name, SRef)
 	E.globalRefs[name] = t
+	E.tb.AddTermAxiom("global-birth:"+name, E.tb.Eq(E.birth(t), E.tb.Int(0)), t)
 	return t
 }
 
